@@ -4,11 +4,11 @@ package main
 
 import (
 	"fmt"
-	"os"
 	"go/constant"
 	"go/token"
 	"go/types"
 	"math"
+	"os"
 	"strings"
 
 	"golang.org/x/tools/go/ssa"
@@ -183,8 +183,8 @@ func init() {
 func ruleS10(c *Ctx) {
 	n := 0
 	for _, fn := range c.P.Funcs {
-		if !isProdPkg(fnPkgPath(fn)) {
-			continue
+		if !strings.HasPrefix(fnPkgPath(fn), modPath) {
+			continue // every package of the module counts, the REPL and command packages included: they are host code a user copies
 		}
 		ord := 0
 		eachInstr(fn, func(in ssa.Instruction) {
@@ -1371,4 +1371,467 @@ func ruleQ9(c *Ctx) {
 	if n == 0 {
 		c.anchorFail("syntax.Quote: no \\x escape of a rune found")
 	}
+}
+
+// ---------- E14: each operand is told which side it is on ----------
+
+func init() {
+	register("E14", "an operand's Binary method is told its true side: in the evaluator's fallback dispatch, the Binary method of the left operand is called with the constant Left and that of the right operand with the constant Right (the operand and the other value exchanged); a side computed at run time (a flag that is only flipped on some paths) makes `duration - time` reach Time.Binary as if it were `time - duration`", 1, ruleE14)
+	claim("C19", "E14")
+	claim("C01", "E14")
+}
+
+func ruleE14(c *Ctx) {
+	fn := c.P.Func("starlark", "Binary")
+	if fn == nil || len(fn.Params) < 3 {
+		c.anchorFail("starlark.Binary not found")
+		return
+	}
+	px, py := fn.Params[1], fn.Params[2]
+	sideConst := func(name string) (bool, bool) {
+		k, ok := c.P.Pkg("starlark").Types.Scope().Lookup(name).(*types.Const)
+		if !ok {
+			return false, false
+		}
+		return constant.BoolVal(k.Val()), true
+	}
+	left, ok1 := sideConst("Left")
+	right, ok2 := sideConst("Right")
+	if !ok1 || !ok2 {
+		c.anchorFail("starlark.Left/Right not found")
+		return
+	}
+	from := func(v ssa.Value) ssa.Value {
+		for i := 0; i < 6; i++ {
+			switch x := v.(type) {
+			case *ssa.Extract:
+				v = x.Tuple
+			case *ssa.TypeAssert:
+				v = x.X
+			case *ssa.ChangeInterface:
+				v = x.X
+			case *ssa.Phi:
+				// a loop variable that is x on one round and y on the other: undecided
+				return nil
+			default:
+				return v
+			}
+		}
+		return v
+	}
+	n := 0
+	eachInstr(fn, func(in ssa.Instruction) {
+		call, ok := in.(*ssa.Call)
+		if !ok || !call.Call.IsInvoke() || call.Call.Method.Name() != "Binary" || len(call.Call.Args) != 3 {
+			return
+		}
+		n++
+		key := fmt.Sprintf("starlark.Binary: fallback dispatch #%d", n)
+		pos := c.P.Pos(call.Pos())
+		recv := from(call.Call.Value)
+		other := from(call.Call.Args[1])
+		sk, isK := call.Call.Args[2].(*ssa.Const)
+		switch {
+		case !isK || sk.Value == nil:
+			c.viol(key, pos, "the side passed to an operand's Binary method is computed at run time, not a constant: on some path the right operand is told it stands on the left (or the reverse), and side-sensitive types then compute y op x for x op y")
+		case recv == ssa.Value(px) && other == ssa.Value(py) && constant.BoolVal(sk.Value) == left:
+			c.ok(key, pos, "the left operand's method, called with Left and the right operand")
+		case recv == ssa.Value(py) && other == ssa.Value(px) && constant.BoolVal(sk.Value) == right:
+			c.ok(key, pos, "the right operand's method, called with Right and the left operand")
+		default:
+			c.viol(key, pos, "receiver, other operand and side do not agree: the method of one operand is called with the side of the other")
+		}
+	})
+	if n == 0 {
+		c.anchorFail("starlark.Binary has no dynamic call of a Binary method")
+	}
+}
+
+// ---------- V15: augmented assignment updates in place only where the language says so ----------
+
+func init() {
+	register("V15", "x += y and x |= y update x in place only for the types the specification names: where the interpreter (or a helper it calls) falls back to Binary(PLUS/PIPE, x, y) for the general case, the only other way the result is produced is the left operand itself after a successful type test for *List (+=) or *Dict (|=); an in-place arm for sets makes `b = a; b |= t` change a as well, although for sets `x |= y` means `x = x | y`", 2, ruleV15)
+	claim("C12", "V15")
+	claim("C01", "V15")
+}
+
+func ruleV15(c *Ctx) {
+	bin := c.P.Func("starlark", "Binary")
+	spk := c.P.Pkg("syntax")
+	if bin == nil || spk == nil {
+		c.anchorFail("starlark.Binary / package syntax not found")
+		return
+	}
+	tokVal := func(name string) int64 {
+		if k, ok := spk.Types.Scope().Lookup(name).(*types.Const); ok {
+			v, _ := constant.Int64Val(constant.ToInt(k.Val()))
+			return v
+		}
+		return -1
+	}
+	allowed := map[int64]string{tokVal("PLUS"): "List", tokVal("PIPE"): "Dict"}
+	opName := map[int64]string{tokVal("PLUS"): "+=", tokVal("PIPE"): "|="}
+	n := 0
+	for _, fn := range c.P.Funcs {
+		if relPkg(fnPkgPath(fn)) != "starlark" || fn == bin {
+			continue
+		}
+		eachInstr(fn, func(in ssa.Instruction) {
+			call, ok := in.(*ssa.Call)
+			if !ok || call.Call.StaticCallee() != bin || len(call.Call.Args) != 3 {
+				return
+			}
+			tok, ok := constInt(call.Call.Args[0])
+			if !ok || allowed[tok] == "" {
+				return
+			}
+			x := call.Call.Args[1]
+			// the value the fallback result is merged with: a phi (or variable) that also receives the
+			// in-place result
+			var res ssa.Value
+			if refs := call.Referrers(); refs != nil {
+				for _, r := range *refs {
+					if ex, ok := r.(*ssa.Extract); ok && ex.Index == 0 && ex.Referrers() != nil {
+						for _, rr := range *ex.Referrers() {
+							if phi, ok := rr.(*ssa.Phi); ok {
+								res = phi
+							}
+						}
+					}
+				}
+			}
+			// or the fallback is returned directly by a helper (func inplacePipe(x, y) (Value, error)) whose
+			// other returns hand back the in-place result
+			var roots []ssa.Value
+			if phi, ok := res.(*ssa.Phi); ok {
+				roots = append(roots, phi)
+			} else {
+				returned := false
+				eachInstr(fn, func(in2 ssa.Instruction) {
+					if r, ok := in2.(*ssa.Return); ok && len(r.Results) > 0 {
+						if ex, ok := r.Results[0].(*ssa.Extract); ok && ex.Tuple == ssa.Value(call) {
+							returned = true
+						}
+					}
+				})
+				if returned {
+					eachInstr(fn, func(in2 ssa.Instruction) {
+						if r, ok := in2.(*ssa.Return); ok && len(r.Results) > 0 {
+							roots = append(roots, r.Results[0])
+						}
+					})
+				}
+			}
+			if len(roots) == 0 {
+				return // no in-place alternative merged with the general case here
+			}
+			n++
+			key := fmt.Sprintf("%s: in-place arm of %s", fnName(fn), opName[tok])
+			bad := ""
+			seen := map[ssa.Value]bool{}
+			var walk func(v ssa.Value)
+			walk = func(v ssa.Value) {
+				if seen[v] {
+					return
+				}
+				seen[v] = true
+				switch y := v.(type) {
+				case *ssa.Phi:
+					for _, e := range y.Edges {
+						walk(e)
+					}
+				case *ssa.MakeInterface:
+					_, tn := namedOf(y.X.Type())
+					src := y.X
+					if ex, ok := src.(*ssa.Extract); ok {
+						src = ex.Tuple
+					}
+					if ta, ok := src.(*ssa.TypeAssert); ok && (ta.X == x || sameValue2(ta.X, x)) {
+						if tn != allowed[tok] {
+							bad = tn
+						}
+					}
+				}
+			}
+			for _, rv := range roots {
+				walk(rv)
+			}
+			if bad == "" {
+				c.ok(key, c.P.Pos(call.Pos()), "the left operand is returned as the result only as a *"+allowed[tok])
+			} else {
+				c.viol(key, c.P.Pos(call.Pos()), fmt.Sprintf("%s updates a %s in place and returns it: the specification defines in-place behaviour for %s only, every other type gets a new value, so other references to the left operand must not see the change", opName[tok], bad, strings.ToLower(allowed[tok])+"s"))
+			}
+		})
+	}
+	if n == 0 {
+		c.anchorFail("no augmented-assignment arm with a Binary fallback found")
+	}
+}
+
+// ---------- I18: negating a machine integer that may be the minimum ----------
+
+func init() {
+	register("I18", "a machine integer that may be the most negative value of its type is not negated: -x wraps back to x for MinInt32/MinInt64, so every negation of a 32- or 64-bit signed integer that comes from the script (an unpacked Go int, a small-int arm, a duration, a value that is only compared on the way) is performed where the minimum has been excluded - by a dominating test that the value is positive or differs from the minimum, decided by letting the value take the minimum and its neighbours and asking whether the negation is still reachable - or is a named site. `x - y` written as x + (-y) and an absolute value taken before printing a sign are the usual places: json.encode(-2147483648) must not print two minus signs", 0, ruleI18)
+	claim("C10", "I18")
+	claim("C19", "I18")
+	claim("C18", "I18")
+}
+
+var i18Exceptions = map[string]string{
+	"starlark.outOfRange: negation of int #1": "n is the length of the sequence being indexed (every caller passes Len()), so it is not negative; the negation only builds the error text",
+	"starlark.signum64: negation of int64 #1": "Hacker's Delight sign function: uint64(-x)>>63 is meant to be evaluated modulo 2^64; for the minimum it is 1, which gives the correct sign -1",
+	"starlark.rangeLen: negation of int #1":   "-step for step == MinInt wraps to MinInt; the quotient (start-1-stop)/-step is then 0 for every difference below 2^63 and the length 1 is correct (a step of magnitude 2^63 allows one element); larger differences are the recorded finding I6 'rangeLen: SUB'",
+}
+
+func ruleI18(c *Ctx) {
+	n := 0
+	for _, fn := range c.P.Funcs {
+		pk := relPkg(fnPkgPath(fn))
+		if !isProdPkg(fnPkgPath(fn)) || !(pk == "starlark" || strings.HasPrefix(pk, "lib/") || pk == "starlarkstruct") {
+			continue
+		}
+		ord := 0
+		eachInstr(fn, func(in ssa.Instruction) {
+			u, ok := in.(*ssa.UnOp)
+			if !ok || u.Op != token.SUB {
+				return
+			}
+			bt, ok := u.Type().Underlying().(*types.Basic)
+			if !ok || bt.Info()&types.IsInteger == 0 || bt.Info()&types.IsUnsigned != 0 {
+				return
+			}
+			if _, isK := u.X.(*ssa.Const); isK {
+				return
+			}
+			bits := int(c.P.sizes().Sizeof(bt)) * 8
+			if bits < 32 {
+				return
+			}
+			n++
+			ord++
+			key := fmt.Sprintf("%s: negation of %s #%d", fnName(fn), typeShort(u.Type()), ord)
+			pos := c.P.Pos(u.Pos())
+			min := int64(math.MinInt64)
+			if bits == 32 {
+				min = math.MinInt32
+			}
+			// the operand, looked at through conversions that keep the value (int32 -> int64 widening is
+			// safe to negate: then the narrow minimum is no problem)
+			x := u.X
+			if cv, ok := x.(*ssa.Convert); ok {
+				if sb, ok := cv.X.Type().Underlying().(*types.Basic); ok && sb.Info()&types.IsInteger != 0 && sb.Info()&types.IsUnsigned == 0 && int(c.P.sizes().Sizeof(sb))*8 < bits {
+					c.ok(key, pos, "the operand was widened from a narrower type: its negation fits")
+					return
+				}
+			}
+			dom := newRepDomain(c.P, min, 0)
+			dom.addConstsOf(fn)
+			dom.reps[min], dom.reps[min+1] = true, true
+			dom.valueSetAt(x, u.Block(), map[ssa.Value]bool{}, 0)
+			set, _ := dom.valueSetAt(x, u.Block(), map[ssa.Value]bool{}, 0)
+			if !set[min] {
+				c.ok(key, pos, "the most negative value cannot reach the negation")
+				return
+			}
+			if r, ok := i18Exceptions[key]; ok {
+				c.except(key, pos, r)
+				return
+			}
+			if r, ok := w3Exceptions[fnName(outermost(fn))]; ok {
+				c.except(key, pos, r)
+				return
+			}
+			c.viol(key, pos, fmt.Sprintf("a %d-bit signed integer is negated where it can still be the most negative value of its type: the negation wraps back to the same negative number", bits))
+		})
+	}
+	c.note("%d negations of 32/64-bit signed integers", n)
+}
+
+// ---------- D6: snapshots handed out by a collection are the caller's own ----------
+
+func init() {
+	register("D6", "a snapshot of a collection belongs to the caller: every method of the hashtable, Dict and Set that returns a slice (items, keys, values, elems) returns storage allocated by that call; callers sort these slices in place (json.encode sorts Items(), dir() sorts names), so a cached slice shared by all callers of a frozen table changes the order later executions and other threads observe - and two concurrent encodes sort the same memory", 4, ruleD6)
+	claim("C03", "D6")
+	claim("C04", "D6")
+	claim("C05", "D6")
+}
+
+func ruleD6(c *Ctx) {
+	fc := computeReturnsFresh(c.P)
+	n := 0
+	for _, fn := range c.P.Funcs {
+		if relPkg(fnPkgPath(fn)) != "starlark" || fn.Signature.Recv() == nil || fn.Signature.Results().Len() != 1 {
+			continue
+		}
+		rt := qualType(fn.Signature.Recv().Type())
+		if rt != "starlark.hashtable" && rt != "starlark.Dict" && rt != "starlark.Set" {
+			continue
+		}
+		if _, ok := fn.Signature.Results().At(0).Type().Underlying().(*types.Slice); !ok {
+			continue
+		}
+		n++
+		key := fnName(fn) + ": returns its own slice"
+		bad := ""
+		eachInstr(fn, func(in ssa.Instruction) {
+			r, ok := in.(*ssa.Return)
+			if !ok || len(r.Results) != 1 {
+				return
+			}
+			for _, p := range provenance(fc, r.Results[0]) {
+				switch p.kind {
+				case "fresh":
+				case "field":
+					bad = "a slice kept in " + qualType(p.tr.owners[0]) + "." + p.tr.fields[0].Name()
+				default:
+					// the result of another method of the same family (Dict.Items -> ht.items) is judged there
+					if call, ok := p.v.(*ssa.Call); ok {
+						if cal := call.Call.StaticCallee(); cal != nil && cal.Signature.Recv() != nil {
+							q := qualType(cal.Signature.Recv().Type())
+							if q == "starlark.hashtable" || q == "starlark.Dict" || q == "starlark.Set" {
+								continue
+							}
+						}
+					}
+					bad = "storage whose origin is not an allocation in this call (" + p.kind + ")"
+				}
+			}
+		})
+		if bad == "" {
+			c.ok(key, c.P.Pos(fn.Pos()), "allocated by the call")
+		} else {
+			c.viol(key, c.P.Pos(fn.Pos()), "the method returns "+bad+": callers sort the returned slice in place, so every later caller (and every other thread) sees the reordered, shared storage")
+		}
+	}
+	if n == 0 {
+		c.anchorFail("no slice-returning methods of hashtable/Dict/Set found")
+	}
+}
+
+// ---------- X2: a counting method is matched by its inverse on every path ----------
+
+func init() {
+	register("X2", "what is counted up is counted down: where a type has a method whose only effect is to add one to an integer field (possibly checking a limit) and another whose only effect is to subtract one from the same field, every call of the first in a function is followed, on every path to the function's return, by a call of the second (directly or deferred) - unless the function is itself one of the pair. A nesting limit whose `enter` is not matched by `leave` on the early returns for `()`, `[]` and `{}` climbs with every empty literal, so a flat file with a thousand of them is rejected as too deeply nested", 0, ruleX2)
+	claim("C14", "X2")
+	claim("C15", "X2")
+}
+
+func ruleX2(c *Ctx) {
+	type fld struct {
+		t types.Type
+		i int
+	}
+	// methods that only step one field of their receiver by +1 / -1
+	delta := map[*ssa.Function]int{}
+	which := map[*ssa.Function]fld{}
+	for _, fn := range c.P.Funcs {
+		if !isProdPkg(fnPkgPath(fn)) || fn.Signature.Recv() == nil || len(fn.Params) == 0 {
+			continue
+		}
+		stores, d := 0, 0
+		var f fld
+		bad := false
+		eachInstr(fn, func(in ssa.Instruction) {
+			switch x := in.(type) {
+			case *ssa.Store:
+				// stores into the function's own temporaries (the argument array of a variadic call)
+				if ia, ok := x.Addr.(*ssa.IndexAddr); ok {
+					if _, isLocal := ia.X.(*ssa.Alloc); isLocal {
+						return
+					}
+				}
+				if _, isLocal := x.Addr.(*ssa.Alloc); isLocal {
+					return
+				}
+				stores++
+				fa, ok := x.Addr.(*ssa.FieldAddr)
+				if !ok || fa.X != ssa.Value(fn.Params[0]) {
+					bad = true
+					return
+				}
+				b, ok := x.Val.(*ssa.BinOp)
+				if !ok || (b.Op != token.ADD && b.Op != token.SUB) {
+					bad = true
+					return
+				}
+				k, isK := constInt(b.Y)
+				ld, isLd := b.X.(*ssa.UnOp)
+				if !isK || k != 1 || !isLd {
+					bad = true
+					return
+				}
+				if fb, ok := ld.X.(*ssa.FieldAddr); !ok || fb.X != fa.X || fb.Field != fa.Field {
+					bad = true
+					return
+				}
+				f = fld{deref(fa.X.Type()), fa.Field}
+				if b.Op == token.ADD {
+					d = 1
+				} else {
+					d = -1
+				}
+			case *ssa.MapUpdate, *ssa.Send, *ssa.Go:
+				bad = true
+			}
+		})
+		if !bad && stores == 1 && d != 0 {
+			delta[fn] = d
+			which[fn] = f
+		}
+	}
+	n := 0
+	for inc, d := range delta {
+		if d != 1 {
+			continue
+		}
+		var dec *ssa.Function
+		for g, d2 := range delta {
+			if d2 == -1 && types.Identical(which[g].t, which[inc].t) && which[g].i == which[inc].i {
+				dec = g
+			}
+		}
+		if dec == nil {
+			continue
+		}
+		for _, fn := range c.P.Funcs {
+			if !isProdPkg(fnPkgPath(fn)) || fn == inc || fn == dec {
+				continue
+			}
+			ord := 0
+			deferred := false
+			eachInstr(fn, func(in ssa.Instruction) {
+				if df, ok := in.(*ssa.Defer); ok && df.Call.StaticCallee() == dec {
+					deferred = true
+				}
+			})
+			eachInstr(fn, func(in ssa.Instruction) {
+				call, ok := in.(*ssa.Call)
+				if !ok || call.Call.StaticCallee() != inc {
+					return
+				}
+				n++
+				ord++
+				key := fmt.Sprintf("%s: %s #%d is matched by %s", fnName(fn), inc.Name(), ord, dec.Name())
+				if deferred {
+					c.ok(key, c.P.Pos(call.Pos()), "the inverse is deferred")
+					return
+				}
+				leak := pathAvoiding(call,
+					func(x ssa.Instruction) bool {
+						ci, ok := x.(ssa.CallInstruction)
+						return ok && ci.Common().StaticCallee() == dec
+					},
+					func(x ssa.Instruction) bool {
+						_, isRet := x.(*ssa.Return)
+						return isRet
+					})
+				if leak == nil {
+					c.ok(key, c.P.Pos(call.Pos()), "every path to a return passes the inverse call")
+				} else {
+					c.viol(key, c.P.Pos(leak.Pos()), fmt.Sprintf("a return is reachable after %s without %s: the counter keeps the increment, so it grows with every such path taken and the limit it guards is eventually hit by input that is not nested at all", inc.Name(), dec.Name()))
+				}
+			})
+		}
+	}
+	c.note("%d calls of counting methods that have an inverse", n)
 }
